@@ -168,6 +168,12 @@ theorem build_sound : ∀ (fuel : Nat) (p : PItem) (m : M), PGood env fuel p →
 
 end
 
+/-- `build_sound` with the bridge facts proved (C02.bridge): no assumption beyond `EnvTotal` and good atoms -/
+theorem build_sound_final (env : Env) (he : EnvTotal env) (fuel : Nat) (p : PItem) (m : M)
+    (hg : PGood env fuel p) (hb : build fuel p = some m) :
+    GAll (Good env) m ∧ sem env m = refSem env fuel p :=
+  build_sound env he (C02.bridge env he).1 (C02.bridge env he).2 fuel p m hg hb
+
 /-- non-vacuity: `os_name == "a" or "b" == os_name and os_name != "c"` builds, its atoms are good -/
 example : (build 10 (.group [.atom true "os_name" "==" "a", .or_, .atom false "b" "==" "os_name", .and_,
     .atom true "os_name" "!=" "c"])).isSome = true := by decide
